@@ -67,10 +67,11 @@ def parse_viols(out):
         raise ToolError("could not parse every VIOL line TLC printed (%d of %d)" % (len(viols), flat.count('"VIOL"')))
     return viols
 
-def run_trace(prop, trace_path, tag):
-    """Validate one recorded trace against Props.tla for property `prop`."""
+def run_trace(prop, trace_path, tag, module="Trace"):
+    """Validate one recorded trace against Props.tla for property `prop`
+    (module TraceS: structural validation of production-scale traces)."""
     metadir = os.path.join(WORK, "tlc_%s_%s_%d" % (prop, tag, os.getpid()))
-    rc, out = java_tlc(os.path.join(SPEC, "trace"), "Trace.tla", "Trace.cfg", metadir,
+    rc, out = java_tlc(os.path.join(SPEC, "trace"), module + ".tla", module + ".cfg", metadir,
                        env_extra={"TRACE": trace_path, "ONLY": prop})
     viols = parse_viols(out)
     hits = {}
